@@ -1,6 +1,7 @@
 package gen
 
 import (
+	"fmt"
 	"math/rand"
 	"testing"
 
@@ -97,5 +98,27 @@ func TestTextbookLALR(t *testing.T) {
 	tab3 := ref.BuildTable(ref.BuildLALR(ref.BuildLR0(g3.ToRef(), 2000), 1000))
 	if tab3.HasUnresolved || len(tab3.Cells) != 4 {
 		t.Fatalf("expression grammar: cells %d unresolved %v", len(tab3.Cells), tab3.HasUnresolved)
+	}
+}
+
+func TestTinyEnumeration(t *testing.T) {
+	n := TinyCount()
+	if n != 42+861+11480+111930 {
+		t.Fatalf("count %d", n)
+	}
+	seen := map[string]bool{}
+	for _, i := range []int{0, 1, 41, 42, 43, 902, 903, 12382, 12383, n - 1} {
+		g := Tiny(i)
+		k := ""
+		for _, r := range g.Rules {
+			k += fmt.Sprint(r.Lhs, r.Rhs, ";")
+		}
+		if seen[k] {
+			t.Fatalf("duplicate grammar at %d", i)
+		}
+		seen[k] = true
+	}
+	if len(Tiny(0).Rules) != 1 || len(Tiny(42).Rules) != 2 || len(Tiny(n-1).Rules) != 4 {
+		t.Fatal("sizes")
 	}
 }
